@@ -64,7 +64,7 @@ def run(ctx):
         if ev["outcome"] in ("panic", "exit"):
             key = "C03/%s/%s" % (ev["outcome"], site or "?")
         elif ev["outcome"] == "allocbomb":
-            deep = [t for t in ev["desc"].split() if t.startswith(("Msg", "Payload", "Gzip", "Prop", "Long"))]
+            deep = [t for t in ev["desc"].split() if t.startswith(("Msg", "Payload", "Gzip", "Long"))]
             key = "C03/allocbomb/" + (deep[0] if deep else ev["desc"].split()[0])
         else:
             key = "C03/%s/%s" % (ev["outcome"], ev["desc"].split()[-2] if ev["kind"] == "plan" and len(ev["desc"].split()) > 1 else ev["desc"])
